@@ -82,12 +82,16 @@ def gen_spec(rng, thorough=False):
                       "emptymember": rng.random() < 0.2})
     spec = {"n": n, "feats": feats, "unknown": rng.random() < 0.15, "defective": None,
             "emptyscalar": rng.random() < 0.04, "emptyimage": rng.random() < 0.05,
-            "logs": [], "tables": [], "basins": [], "writer": False}
-    r = rng.random()
-    if r < 0.1:
-        spec["defective"] = "aspect"
-    elif r < 0.2:
-        spec["defective"] = "volume"
+            "logs": [], "tables": [], "basins": [], "writer": False,
+            "mapped_same_len": rng.random() < 0.5}
+    if rng.random() < 0.45:
+        spec["swver"] = rng.choice(SW_CHAINS)
+        spec["extra_feats"] = sorted(rng.sample(DEFECT_PRONE, rng.randint(1, 4)))
+        spec["time32"] = rng.random() < 0.3
+        spec["with_frame"] = rng.random() < 0.7
+        spec["roi600"] = rng.random() < 0.6
+        spec["marker_logs"] = [m for m in ("dclab_issue_141", "shapein-acquisition")
+                               if rng.random() < 0.25]
     for i in range(rng.randint(0, 3)):
         kind = rng.choice(["fixed", "vlen", "vlen", "fixed150"])
         nl = rng.choice([0, 1, 2, 5])
@@ -124,6 +128,12 @@ def base_attrs(spec):
         m["setup"]["software version"] = "ShapeIn 2.0.6"
     elif spec.get("defective") == "volume":
         m["setup"]["software version"] = "ShapeIn 2.0.1 | dclab 0.36.0"
+    if spec.get("swver"):
+        m["setup"]["software version"] = spec["swver"]
+    if spec.get("roi600") and not any(f["kind"] == "image" for f in spec["feats"]):
+        m["imaging"]["roi size x"] = 600
+    if spec.get("big"):
+        m["imaging"]["roi size x"], m["imaging"]["roi size y"] = spec["big"][1], spec["big"][0]
     out = {}
     for sec, kv in m.items():
         for k, v in kv.items():
@@ -172,6 +182,23 @@ def build(spec, path, wd):
                            f["storage"], f["chunk"])
                 if f.get("emptymember"):
                     g.create_dataset("fl2_raw", shape=(0, gen.TRACE_LEN), dtype=np.int16)
+        for name in spec.get("extra_feats", []):
+            if name in ev:
+                continue
+            data = gen.rows(name, toks)
+            if name == "time" and spec.get("time32"):
+                data = data.astype(np.float32)
+            ev.create_dataset(name, data=data)
+        if spec.get("with_frame") and "time" in spec.get("extra_feats", []) and "frame" not in ev:
+            ev.create_dataset("frame", data=gen.rows("frame", toks))
+        if spec.get("big"):
+            hh, ww = spec["big"]
+            big = ((np.arange(n, dtype=np.int64)[:, None, None] * 7
+                    + np.arange(hh)[None, :, None] * 3 + np.arange(ww)[None, None, :]) % 251)
+            d = ev.create_dataset("image", data=big.astype(np.uint8))      # contiguous, > 16 MiB
+            d.attrs["CLASS"] = np.bytes_("IMAGE")
+            d.attrs["IMAGE_VERSION"] = np.bytes_("1.2")
+            d.attrs["IMAGE_SUBCLASS"] = np.bytes_("IMAGE_GRAYSCALE")
         if spec.get("defective") == "aspect" and "aspect" not in ev:
             ev.create_dataset("aspect", data=gen.rows("aspect", toks))
         if spec.get("defective") == "volume":
@@ -182,8 +209,10 @@ def build(spec, path, wd):
             ev.create_dataset("area_cvx", shape=(0,), dtype=float)
         if spec.get("emptyimage"):
             ev.create_dataset("image_bg", shape=(0,) + gen.IMG_SHAPE, dtype=np.uint8)
+        for mname in spec.get("marker_logs", []):
+            h.require_group("logs").create_dataset(mname, data=np.array([b"marker"], dtype="S100"))
         if spec["logs"]:
-            lg = h.create_group("logs")
+            lg = h.require_group("logs")
             for lspec in spec["logs"]:
                 lines = [x.encode("utf-8") for x in lspec["lines"]]
                 if lspec["kind"] == "vlen":
@@ -225,7 +254,7 @@ def build(spec, path, wd):
                 origin = wd / f"origin_{b['kind']}.rtdc"
                 feats = {"file": ["userdef2"], "file2": ["userdef3", "userdef4"],
                          "mapped": ["userdef5"]}[b["kind"]]
-                no = n if b["kind"] != "mapped" else n + 4
+                no = n if (b["kind"] != "mapped" or spec.get("mapped_same_len")) else n + 4
                 gen.make_rtdc(origin, range(100, 100 + no), feats=feats + ["size_y"], rid=RID)
                 mapping = "same"
                 if b["kind"] == "mapped":
@@ -285,6 +314,77 @@ def build_writer(spec, path, wd):
                                basin_map=np.array([i % m for i in range(n)], dtype=np.uint64),
                                internal_data={"userdef1": np.arange(m, dtype=float) + 0.25})
     return path
+
+
+# ---------------------------------------------------------------------------------------
+# independent re-implementation of the documented rules of fmt_hdf5/feat_defect.py
+def vtuple(v):
+    out = []
+    for part in v.strip().split("."):
+        digits = "".join(ch for ch in part if ch.isdigit())
+        out.append(int(digits) if digits else 0)
+    return tuple(out)
+
+
+def last_dclab_version(sw):
+    """version of dclab if dclab is the LAST entry of the software chain, else None"""
+    last = sw.split("|")[-1].strip()
+    if last.startswith("dclab") and len(last.split()) > 1:
+        return vtuple(last.split()[1])
+    return None
+
+
+def defect_oracle(h, feat):
+    """is the stored feature `feat` of the open h5py file `h` defective (to be recomputed)?"""
+    sw = h.attrs.get("setup:software version", "")
+    sw = sw.decode("utf-8") if isinstance(sw, bytes) else str(sw)
+    ev = h.get("events", {})
+    logs = list(h.get("logs", {}).keys())
+    if feat not in ev:
+        return False
+    dv = last_dclab_version(sw)
+
+    def inert():
+        return bool(h.attrs.get("imaging:roi size x", 0) > 500 and sw
+                    and dv is not None and dv < (0, 48, 3))
+    if feat == "aspect":
+        return sw in ("ShapeIn 2.0.6", "ShapeIn 2.0.7")
+    if feat == "time":
+        if not ("frame" in ev and h.attrs.get("imaging:frame rate", 0) != 0):
+            return False
+        if ev["time"].dtype.char[-1] == "f":
+            return True
+        if "ShapeIn" not in sw:
+            return False
+        return dv is not None and dv < (0, 47, 6)
+    if feat == "volume":
+        if "dclab_issue_141" in logs:
+            return False
+        return bool(sw) and dv is not None and dv < (0, 37, 0)
+    if feat in ("inert_ratio_prnc", "tilt"):
+        return inert()
+    if feat in ("inert_ratio_cvx", "inert_ratio_raw"):
+        if not inert():
+            return False
+        first = sw.split("|")[0].strip()
+        if first.startswith("ShapeIn"):
+            si = first.split()[1]
+        elif "shapein-acquisition" in logs:
+            si = first
+        else:
+            return True
+        return not vtuple(si) >= (2, 0, 5)
+    return False
+
+
+SW_CHAINS = ["verif 1.0", "ShapeIn 2.0.6", "ShapeIn 2.0.7", "ShapeIn 2.0.1 | dclab 0.36.0",
+             "ShapeIn 2.0.1 | dclab 0.35.2 | dcnum 0.16.3", "ShapeIn 2.0.4 | dclab 0.47.5",
+             "ShapeIn 2.0.4 | dclab 0.47.5 | ChipStream 0.6.1", "dclab 0.48.2",
+             "ShapeIn 2.0.7 | dclab 0.50.0", "ShapeIn 2.0.5 | dclab 0.48.1",
+             "dclab 0.36.0 | ShapeIn 2.4.0 | dclab 0.62.0", "2.5.0 | dclab 0.48.0",
+             "ShapeIn 2.0.3 | dclab 0.48.1 | dcnum 0.20.0 | dclab 0.63.0"]
+DEFECT_PRONE = ["volume", "time", "inert_ratio_cvx", "inert_ratio_raw", "inert_ratio_prnc", "tilt",
+                "aspect"]
 
 
 # ---------------------------------------------------------------------------------------
@@ -389,8 +489,7 @@ def proto_lines(path, items):
     with h5py.File(path, "r") as h:
         names = set(h.get("events", {}).keys()) | set(h.get("basin_events", {}).keys())
         for name in sorted(names):
-            defect = bool(name in DEFECTIVE_FEATURES and name in h.get("events", {})
-                          and DEFECTIVE_FEATURES[name](h))
+            defect = defect_oracle(h, name)          # NOT dclab's own predicate
             L.append("flags %s %d%d%d%d" % (enc(name), bool(dfn.feature_exists(name)),
                                            bool(dfn.scalar_feature_exists(name)),
                                            bool(bn.match(name)), defect))
